@@ -26,11 +26,22 @@ pub struct VH {
     pub seed: u64,
 }
 
+static DEFAULT_CTR: std::sync::atomic::AtomicU64 = std::sync::atomic::AtomicU64::new(0);
+
+/// restarts the sequence of seeds that `VH::default()` hands out (start of every case)
+pub fn vh_default_reset() {
+    DEFAULT_CTR.store(0, std::sync::atomic::Ordering::Relaxed);
+}
+
+/// Like `std::collections::hash_map::RandomState`, every `default()` instance hashes differently
+/// (two `S::default()` are not interchangeable) - but deterministically: the n-th instance created
+/// since the start of the case always gets the same seed.
 impl Default for VH {
     fn default() -> Self {
+        let n = DEFAULT_CTR.fetch_add(1, std::sync::atomic::Ordering::Relaxed);
         VH {
             mode: HMode::Good,
-            seed: 0,
+            seed: splitmix(n ^ 0x5eed_5eed),
         }
     }
 }
@@ -94,6 +105,43 @@ impl BuildHasher for VH {
 // Element traits
 // ---------------------------------------------------------------------------------------------
 
+/// A borrowed form of both key types (`K: Borrow<QV>`), as `str` is of `String`: lookups, removals
+/// and indexing accept it in place of `&K`. Its `Hash` and `Eq` agree with the keys' (payload only).
+#[repr(transparent)]
+pub struct QV(pub u32);
+
+impl QV {
+    pub fn of(k: &u32) -> &QV {
+        // SAFETY: QV is repr(transparent) over u32
+        unsafe { &*(k as *const u32 as *const QV) }
+    }
+}
+impl Hash for QV {
+    fn hash<H: Hasher>(&self, state: &mut H) {
+        tick(K_HASH, (self.0, 0), (0, 0));
+        hlog_push(self.0, 0);
+        state.write_u32(self.0);
+    }
+}
+impl PartialEq for QV {
+    fn eq(&self, o: &QV) -> bool {
+        tick(K_EQ, (self.0, 0), (o.0, 0));
+        self.0 == o.0
+    }
+}
+impl Eq for QV {}
+impl std::borrow::Borrow<QV> for PK {
+    fn borrow(&self) -> &QV {
+        QV::of(&self.0)
+    }
+}
+impl std::borrow::Borrow<QV> for TK {
+    fn borrow(&self) -> &QV {
+        self.check("borrow");
+        QV::of(&self.k)
+    }
+}
+
 pub trait KeyT:
     Hash + Eq + Clone + Debug + Send + Sync + Serialize + for<'de> Deserialize<'de> + 'static
 {
@@ -136,6 +184,12 @@ pub trait Fam: 'static {
     ) -> bool {
         false
     }
+    /// lookups / indexing / removal through the borrowed form `&QV` of the key (written per
+    /// family, on the concrete types, so that `K: Borrow<QV>` does not disturb inference elsewhere)
+    fn lookup_qv(map: &mut griddle::HashMap<Self::K, Self::V, VH>, q: &QV, which: u8, w: Option<u32>) -> Result<Option<(u32, u32, u32, u32)>, bool>;
+    fn index_qv(map: &griddle::HashMap<Self::K, Self::V, VH>, q: &QV) -> (u32, u32);
+    fn remove_qv(map: &mut griddle::HashMap<Self::K, Self::V, VH>, q: &QV, entry: bool) -> Option<(u32, u32, u32, u32)>;
+    fn set_qv(set: &mut griddle::HashSet<Self::K, VH>, q: &QV, which: u8) -> Option<Option<(u32, u32)>>;
     fn set_par_extend_ref(_set: &mut griddle::HashSet<Self::K, VH>, _items: &[Self::K]) -> bool {
         false
     }
@@ -226,10 +280,72 @@ impl ValT for PV {
 }
 
 pub struct FamP;
+
+macro_rules! qv_impl {
+    ($K:ty, $V:ty) => {
+        fn lookup_qv(m: &mut griddle::HashMap<$K, $V, VH>, q: &QV, which: u8, w: Option<u32>) -> Result<Option<(u32, u32, u32, u32)>, bool> {
+            let kk = q.0;
+            match which {
+                0 => Ok(m.get(q).map(|v| (kk, 0, v.v(), v.id()))),
+                1 => Ok(m.get_mut(q).map(|v| {
+                    let r = (kk, 0, v.v(), v.id());
+                    if let Some(w) = w {
+                        v.set(w);
+                    }
+                    r
+                })),
+                2 => Ok(m.get_key_value(q).map(|(k, v)| {
+                    k.check("get_key_value");
+                    (k.k(), k.id(), v.v(), v.id())
+                })),
+                3 => Ok(m.get_key_value_mut(q).map(|(k, v)| {
+                    k.check("get_key_value_mut");
+                    let r = (k.k(), k.id(), v.v(), v.id());
+                    if let Some(w) = w {
+                        v.set(w);
+                    }
+                    r
+                })),
+                _ => Err(m.contains_key(q)),
+            }
+        }
+        fn index_qv(m: &griddle::HashMap<$K, $V, VH>, q: &QV) -> (u32, u32) {
+            let v = &m[q];
+            (v.v(), v.id())
+        }
+        fn remove_qv(m: &mut griddle::HashMap<$K, $V, VH>, q: &QV, entry: bool) -> Option<(u32, u32, u32, u32)> {
+            if entry {
+                m.remove_entry(q).map(|(k, v)| {
+                    k.check("remove_entry");
+                    v.check("remove_entry");
+                    (k.k(), k.id(), v.v(), v.id())
+                })
+            } else {
+                m.remove(q).map(|v| {
+                    v.check("remove");
+                    (q.0, 0, v.v(), v.id())
+                })
+            }
+        }
+        /// which: 2 remove, 3 take, 4 get, 5 contains (the set operations that take `&Q`);
+        /// None for any other operation
+        fn set_qv(s: &mut griddle::HashSet<$K, VH>, q: &QV, which: u8) -> Option<Option<(u32, u32)>> {
+            match which {
+                2 => Some(if s.remove(q) { Some((q.0, 0)) } else { None }),
+                3 => Some(s.take(q).map(|k| (k.k(), k.id()))),
+                4 => Some(s.get(q).map(|k| (k.k(), k.id()))),
+                5 => Some(if s.contains(q) { Some((q.0, 0)) } else { None }),
+                _ => None,
+            }
+        }
+    };
+}
+
 impl Fam for FamP {
     const NAME: &'static str = "P";
     type K = PK;
     type V = PV;
+    qv_impl!(PK, PV);
     fn extend_ref(map: &mut griddle::HashMap<PK, PV, VH>, items: &[(PK, PV)]) -> bool {
         map.extend(items.iter().map(|(k, v)| (k, v)));
         true
@@ -457,4 +573,5 @@ impl Fam for FamT {
     const NAME: &'static str = "T";
     type K = TK;
     type V = TV;
+    qv_impl!(TK, TV);
 }
